@@ -264,9 +264,14 @@ func c10compile(m *c10pat, budgets []int, modes []bool) *c10entry {
 	for _, indel := range modes {
 		for _, e := range budgets {
 			cp := &c10comp{e: e, indel: indel}
-			cp.p, cp.perr = MakeApatPattern(m.src, e, indel)
+			// (a panic / log.Fatal of the two constructors is an answer like an error: check() reports it)
+			if cls, msg := c10try(func() { cp.p, cp.perr = MakeApatPattern(m.src, e, indel) }); cls != "" {
+				cp.perr = fmt.Errorf("%s: %s", cls, msg)
+			}
 			if cp.perr == nil {
-				cp.rc, cp.rcerr = cp.p.ReverseComplement()
+				if cls, msg := c10try(func() { cp.rc, cp.rcerr = cp.p.ReverseComplement() }); cls != "" {
+					cp.rcerr = fmt.Errorf("%s: %s", cls, msg)
+				}
 			}
 			ent.comps = append(ent.comps, cp)
 		}
@@ -401,6 +406,42 @@ func c10try(f func()) (class string, msg string) {
 }
 
 var c10seen = map[string]int{}
+
+// c10implErr: an implementation call that the enumeration needs before it can observe anything (building or recycling an
+// ApatSequence) failed. Raised as a panic by the helpers and turned into a violation by item().
+type c10implErr struct{ site, msg string }
+
+// c10installExit: a logrus Fatal inside the implementation unwinds like a panic (judged by c10try / item) instead of
+// ending the process.
+func c10installExit() {
+	log.StandardLogger().ExitFunc = func(code int) { panic(fmt.Sprintf("log.Fatal (exit status %d)", code)) }
+}
+
+// item runs the body of one work item (one sequence / one history). Whatever the tree under test does outside the
+// guarded observation points (MakeApatSequence that fails, Free / Len / String that panic ...) is a verdict on the
+// tree: reported, and the rest of the item is skipped. Panics of the harness itself ("c10: ...") are passed on.
+func (c *c10ctx) item(what string, f func()) {
+	defer func() {
+		v := recover()
+		if v == nil {
+			return
+		}
+		if s, ok := v.(string); ok && strings.HasPrefix(s, "c10:") {
+			panic(v)
+		}
+		c.hist, c.hcirc = nil, nil
+		if e, ok := v.(c10implErr); ok {
+			c.r.Violate(e.site+"/control-run/error:part-"+c.part, fmt.Sprintf("%s: %s", what, e.msg), nil)
+			return
+		}
+		msg := fmt.Sprint(v)
+		if e, ok := v.(*log.Entry); ok {
+			msg = e.Message
+		}
+		c.r.Violate("part-"+c.part+"/control-run/"+c10panicClass(v)+"-outside-the-observation-points", fmt.Sprintf("%s: %s", what, msg), nil)
+	}()
+	f()
+}
 
 func (c *c10ctx) violate(api string, cp *c10comp, class, suffix string, begin, length int, rc bool, format string, a ...any) {
 	mode := "/mismatch/"
@@ -868,7 +909,7 @@ func c10mkcirc(s []byte, circular bool, recycle ...ApatSequence) (as ApatSequenc
 	var err error
 	as, err = MakeApatSequence(bs, circular, recycle...)
 	if err != nil {
-		panic("c10: MakeApatSequence: " + err.Error())
+		panic(c10implErr{"MakeApatSequence", fmt.Sprintf("MakeApatSequence(%q, circular=%v, recycled=%v) refuses a valid sequence: %v", string(s), circular, len(recycle) > 0, err)})
 	}
 	if !circular {
 		return as, s, true
@@ -1089,7 +1130,7 @@ func c10mkseq(s []byte) (*obiseq.BioSequence, ApatSequence) {
 	bs := obiseq.NewBioSequence("c10", s, "")
 	as, err := MakeApatSequence(bs, false)
 	if err != nil {
-		panic("c10: MakeApatSequence: " + err.Error())
+		panic(c10implErr{"MakeApatSequence", fmt.Sprintf("MakeApatSequence(%q) refuses a valid sequence: %v", string(s), err)})
 	}
 	return bs, as
 }
@@ -1152,6 +1193,7 @@ func (p *c10pat) instance() []byte {
 
 func TestVerifC10(t *testing.T) {
 	log.SetOutput(io.Discard)
+	c10installExit()
 	r := verifkit.New("C10")
 	defer r.Write()
 
@@ -1329,14 +1371,16 @@ func TestVerifC10(t *testing.T) {
 			return
 		}
 		seq := []byte(s)
-		_, as := c10mkseq(seq)
-		for _, ent := range entA {
-			ctx.reset(ent.m, seq, as)
-			for _, cp := range ent.comps {
-				ctx.check(cp, 0, -1, true)
+		ctx.item("sequence "+s, func() {
+			_, as := c10mkseq(seq)
+			for _, ent := range entA {
+				ctx.reset(ent.m, seq, as)
+				for _, cp := range ent.comps {
+					ctx.check(cp, 0, -1, true)
+				}
 			}
-		}
-		as.Free()
+			as.Free()
+		})
 		if r.Expired() {
 			expired = true
 		}
@@ -1360,25 +1404,27 @@ func TestVerifC10(t *testing.T) {
 		}
 		seq := []byte(s)
 		L := len(seq)
-		_, as := c10mkseq(seq)
-		for _, ent := range entB {
-			ctx.reset(ent.m, seq, as)
-			for _, cp := range ent.comps {
-				for b := -1; b <= L; b++ {
-					eb := b
-					if eb < 0 {
-						eb = 0
-					}
-					for l := -1; l <= L-eb; l++ {
-						if b == 0 && l == -1 {
-							continue // part A
+		ctx.item("sequence "+s, func() {
+			_, as := c10mkseq(seq)
+			for _, ent := range entB {
+				ctx.reset(ent.m, seq, as)
+				for _, cp := range ent.comps {
+					for b := -1; b <= L; b++ {
+						eb := b
+						if eb < 0 {
+							eb = 0
 						}
-						ctx.check(cp, b, l, false)
+						for l := -1; l <= L-eb; l++ {
+							if b == 0 && l == -1 {
+								continue // part A
+							}
+							ctx.check(cp, b, l, false)
+						}
 					}
 				}
 			}
-		}
-		as.Free()
+			as.Free()
+		})
 		if r.Expired() {
 			expired = true
 		}
@@ -1397,19 +1443,21 @@ func TestVerifC10(t *testing.T) {
 				continue
 			}
 			seq := []byte(u + strings.Repeat("g", 64) + w)
-			_, as := c10mkseq(seq)
-			for _, ent := range entB {
-				ctx.reset(ent.m, seq, as)
-				for _, cp := range ent.comps {
-					for b := 0; b <= 2; b++ {
-						for l := 0; l <= 4; l++ {
-							ctx.check(cp, b, l, false)
+			ctx.item("sequence "+string(seq), func() {
+				_, as := c10mkseq(seq)
+				for _, ent := range entB {
+					ctx.reset(ent.m, seq, as)
+					for _, cp := range ent.comps {
+						for b := 0; b <= 2; b++ {
+							for l := 0; l <= 4; l++ {
+								ctx.check(cp, b, l, false)
+							}
 						}
+						ctx.check(cp, 0, -1, true)
 					}
-					ctx.check(cp, 0, -1, true)
 				}
-			}
-			as.Free()
+				as.Free()
+			})
 			if r.Expired() {
 				expired = true
 			}
@@ -1441,7 +1489,7 @@ func TestVerifC10(t *testing.T) {
 					as, err = MakeApatSequence(bs, false, as)
 				}
 				if err != nil {
-					panic("c10: MakeApatSequence: " + err.Error())
+					panic(c10implErr{"MakeApatSequence/recycle", fmt.Sprintf("history %v: MakeApatSequence refuses a valid sequence: %v", hist[:i+1], err)})
 				}
 				if i > 0 { // run a search so that the hit stacks are dirty before the next recycling
 					ctx.hist = hist[:i]
@@ -1473,7 +1521,7 @@ func TestVerifC10(t *testing.T) {
 					mine := r.Mine(k)
 					k++
 					if mine && !expired && on("E") {
-						runHist([]string{a, b, c})
+						ctx.item(fmt.Sprintf("recycling history %q", []string{a, b, c}), func() { runHist([]string{a, b, c}) })
 					}
 				}
 			}
@@ -1486,7 +1534,7 @@ func TestVerifC10(t *testing.T) {
 				mine := r.Mine(k)
 				k++
 				if mine && !expired && on("E") {
-					runHist([]string{a, b})
+					ctx.item(fmt.Sprintf("recycling history %q", []string{a, b}), func() { runHist([]string{a, b}) })
 				}
 			}
 			if r.Expired() {
@@ -1513,7 +1561,14 @@ func TestVerifC10(t *testing.T) {
 					continue // reported by check(); IsPatternMatchSequence would exit the process
 				}
 				for _, both := range []bool{false, true} {
-					preds = append(preds, pred{ent, cp, both, IsPatternMatchSequence(ent.m.src, cp.e, both, cp.indel)})
+					both := both
+					var apply obiseq.SequencePredicate
+					ctx.item(fmt.Sprintf("IsPatternMatchSequence(%q, %d, bothStrand=%v, indel=%v)", ent.m.src, cp.e, both, cp.indel), func() {
+						apply = IsPatternMatchSequence(ent.m.src, cp.e, both, cp.indel)
+					})
+					if apply != nil {
+						preds = append(preds, pred{ent, cp, both, apply})
+					}
 				}
 			}
 		}
@@ -1524,10 +1579,12 @@ func TestVerifC10(t *testing.T) {
 				return
 			}
 			seq := []byte(s)
-			bs := obiseq.NewBioSequence("c10", seq, "")
-			for _, pd := range preds {
-				predCheck(pd.ent.m, pd.cp, pd.both, pd.apply, seq, bs)
-			}
+			ctx.item("sequence "+s, func() {
+				bs := obiseq.NewBioSequence("c10", seq, "")
+				for _, pd := range preds {
+					predCheck(pd.ent.m, pd.cp, pd.both, pd.apply, seq, bs)
+				}
+			})
 			if r.Expired() {
 				expired = true
 			}
@@ -1565,28 +1622,30 @@ func TestVerifC10(t *testing.T) {
 			}
 			seq := []byte(s)
 			L := len(seq)
-			as, text, tk := c10mkcirc(seq, true)
-			if !tk {
-				r.Count("circular_sequences_with_unknown_tail", 1)
-			}
-			for _, ent := range entG {
-				if len(ent.m.toks) > L {
-					continue
+			r.Count("circular_sequences", 1)
+			ctx.item("circular sequence "+s, func() {
+				as, text, tk := c10mkcirc(seq, true)
+				if !tk {
+					r.Count("circular_sequences_with_unknown_tail", 1)
 				}
-				ctx.resetCirc(ent.m, seq, as, text, tk)
-				for _, cp := range ent.comps {
-					for b := 0; b < L; b++ {
-						for l := -1; l <= L+1; l++ {
-							if l == L+1 {
-								l = L + c10MaxPatLen // what _Pcr passes for a circular sequence
+				for _, ent := range entG {
+					if len(ent.m.toks) > L {
+						continue
+					}
+					ctx.resetCirc(ent.m, seq, as, text, tk)
+					for _, cp := range ent.comps {
+						for b := 0; b < L; b++ {
+							for l := -1; l <= L+1; l++ {
+								if l == L+1 {
+									l = L + c10MaxPatLen // what _Pcr passes for a circular sequence
+								}
+								ctx.checkCirc(cp, b, l)
 							}
-							ctx.checkCirc(cp, b, l)
 						}
 					}
 				}
-			}
-			r.Count("circular_sequences", 1)
-			as.Free()
+				as.Free()
+			})
 			if r.Expired() {
 				expired = true
 			}
@@ -1603,17 +1662,19 @@ func TestVerifC10(t *testing.T) {
 				}
 				seq := []byte(u + strings.Repeat("g", 64) + w)
 				L := len(seq)
-				as, text, tk := c10mkcirc(seq, true)
-				for _, ent := range entG {
-					ctx.resetCirc(ent.m, seq, as, text, tk)
-					for _, cp := range ent.comps {
-						for _, win := range [][2]int{{0, -1}, {0, L + c10MaxPatLen}, {1, -1}, {L - 1, -1}, {L - 2, -1}, {L - 3, -1}, {L - 1, 1}, {L - 1, 2}, {L - 2, 4}, {L - 3, 4}, {L - 3, 3}, {0, L}, {0, L - 1}} {
-							ctx.checkCirc(cp, win[0], win[1])
+				r.Count("circular_sequences", 1)
+				ctx.item("circular sequence "+string(seq), func() {
+					as, text, tk := c10mkcirc(seq, true)
+					for _, ent := range entG {
+						ctx.resetCirc(ent.m, seq, as, text, tk)
+						for _, cp := range ent.comps {
+							for _, win := range [][2]int{{0, -1}, {0, L + c10MaxPatLen}, {1, -1}, {L - 1, -1}, {L - 2, -1}, {L - 3, -1}, {L - 1, 1}, {L - 1, 2}, {L - 2, 4}, {L - 3, 4}, {L - 3, 3}, {0, L}, {0, L - 1}} {
+								ctx.checkCirc(cp, win[0], win[1])
+							}
 						}
 					}
-				}
-				r.Count("circular_sequences", 1)
-				as.Free()
+					as.Free()
+				})
 			}
 		}
 		if r.Expired() {
@@ -1660,14 +1721,16 @@ func TestVerifC10(t *testing.T) {
 							for rot := 0; rot < L; rot++ {
 								seq := append(append([]byte(nil), lin[rot:]...), lin[:rot]...)
 								r.StateH(c10hash(seq) ^ 0x9e3779b97f4a7c15)
-								as, text, tk := c10mkcirc(seq, true)
-								ctx.resetCirc(m, seq, as, text, tk)
-								for _, cp := range ent.comps {
-									ctx.checkCirc(cp, 0, -1)
-									ctx.checkCirc(cp, 0, L+c10MaxPatLen)
-								}
-								as.Free()
 								r.Count("circular_rotations_of_long_pattern_sites", 1)
+								ctx.item("circular sequence "+string(seq), func() {
+									as, text, tk := c10mkcirc(seq, true)
+									ctx.resetCirc(m, seq, as, text, tk)
+									for _, cp := range ent.comps {
+										ctx.checkCirc(cp, 0, -1)
+										ctx.checkCirc(cp, 0, L+c10MaxPatLen)
+									}
+									as.Free()
+								})
 							}
 						}
 					}
@@ -1703,34 +1766,36 @@ func TestVerifC10(t *testing.T) {
 							if !ca && !cb {
 								continue // part E
 							}
-							as, _, _ := c10mkcirc([]byte(a), ca)
-							c10dirty(as)
-							as, text, tk := c10mkcirc([]byte(b), cb, as)
-							ctx.hist, ctx.hcirc = []string{a}, []bool{ca}
-							if as.Len() != len(b) {
-								r.Violate("MakeApatSequence/recycle/wrong-length", fmt.Sprintf("history %q (circular=%v) then %q (circular=%v): Len()=%d", a, ca, b, cb, as.Len()), nil)
-							}
-							ents := entH
-							if cb {
-								ents = entG // a 3-symbol pattern needs two wrapped symbols
-							}
-							for _, ent := range ents {
-								if cb {
-									ctx.resetCirc(ent.m, []byte(b), as, text, tk)
-								} else {
-									ctx.reset(ent.m, []byte(b), as)
+							r.Count("circular_recycle_histories", 1)
+							ctx.item(fmt.Sprintf("recycling history %q (circular=%v) then %q (circular=%v)", a, ca, b, cb), func() {
+								as, _, _ := c10mkcirc([]byte(a), ca)
+								c10dirty(as)
+								as, text, tk := c10mkcirc([]byte(b), cb, as)
+								ctx.hist, ctx.hcirc = []string{a}, []bool{ca}
+								if as.Len() != len(b) {
+									r.Violate("MakeApatSequence/recycle/wrong-length", fmt.Sprintf("history %q (circular=%v) then %q (circular=%v): Len()=%d", a, ca, b, cb, as.Len()), nil)
 								}
-								for _, cp := range ent.comps {
+								ents := entH
+								if cb {
+									ents = entG // a 3-symbol pattern needs two wrapped symbols
+								}
+								for _, ent := range ents {
 									if cb {
-										ctx.checkCirc(cp, 0, -1)
+										ctx.resetCirc(ent.m, []byte(b), as, text, tk)
 									} else {
-										ctx.check(cp, 0, -1, false)
+										ctx.reset(ent.m, []byte(b), as)
+									}
+									for _, cp := range ent.comps {
+										if cb {
+											ctx.checkCirc(cp, 0, -1)
+										} else {
+											ctx.check(cp, 0, -1, false)
+										}
 									}
 								}
-							}
-							ctx.hist, ctx.hcirc = nil, nil
-							as.Free()
-							r.Count("circular_recycle_histories", 1)
+								ctx.hist, ctx.hcirc = nil, nil
+								as.Free()
+							})
 						}
 					}
 					if r.Expired() {
@@ -1798,12 +1863,14 @@ func TestVerifC10(t *testing.T) {
 					seqbuf = append(append(append(seqbuf[:0], lc...), v...), rcx...)
 					seq := append([]byte(nil), seqbuf...)
 					r.StateH(c10hash(seq))
-					_, as := c10mkseq(seq)
-					ctx.reset(m, seq, as)
-					for _, cp := range ent.comps {
-						ctx.check(cp, 0, -1, true)
-					}
-					as.Free()
+					ctx.item("sequence "+string(seq), func() {
+						_, as := c10mkseq(seq)
+						ctx.reset(m, seq, as)
+						for _, cp := range ent.comps {
+							ctx.check(cp, 0, -1, true)
+						}
+						as.Free()
+					})
 				}
 			}
 			r.Count("D_edited_copies", 1)
